@@ -246,3 +246,19 @@ Print Assumptions c09_note_store_forward_partial.
 Print Assumptions c09_cached_monotone_across_reload_refuted.
 Print Assumptions c09_store_monotone.
 Print Assumptions c09_store_not_ahead.
+
+(* ---- audience of relayed notifications on topics WITH channel subscriptions (fan-out slice Sys/Fanout.v,
+   built for C02; the group-topic model above has no channel readers).  Re-stated here because the clause
+   "relayed notifications reach only attached sessions of users with read permission - never the originating
+   session, never channel readers, typing notes never any session of the typist" belongs to C09; the C09 check
+   runs the fan-out driver and the info-* laws on the implementation's frames (tools/props/c09.py relay_audience). *)
+From Tinode Require Import Sys.Fanout Sys.FanoutProofs.
+From Coq Require Import Permutation.
+
+Theorem c09_relay_exact_set : forall st ix,
+  Permutation (map fst (info_fanout st ix)) (map fst (filter (info_eligible st ix) (st_sess st))) /\
+  (wf_sess st -> NoDup (map fst (info_fanout st ix))) /\
+  (forall s, In s (map fst (info_fanout st ix)) <->
+             exists d, In (s, d) (st_sess st) /\ info_eligible st ix (s, d) = true).
+Proof. exact info_exact_set. Qed.
+Print Assumptions c09_relay_exact_set.
